@@ -80,11 +80,15 @@ def numeric_check(ts, targets, kmin=2, rel=2e-4):
             env = {v: s[k] for v, s in ts.items()}
             try:
                 val = eval_ast(t, env)
-            except (KeyError, ZeroDivisionError):
+            except ZeroDivisionError:
                 continue
+            except KeyError as e:
+                # a variable the property talks about does not exist in the solved model
+                bad.append((i, k, float('nan'), 0.0, 'variable %s is not defined by the model' % (e.args[0],)))
+                break
             scale = max([1.0] + [abs(env[x]) for x in G.ast_names(t) if x in env])
             if not math.isfinite(val) or abs(val) > rel * scale:
-                bad.append((i, k, val, scale))
+                bad.append((i, k, val, scale, None))
                 break
     return bad
 
@@ -125,11 +129,12 @@ def run_targets(ctx, pid, make_targets, n_quick, n_thorough, gen=None, rule='', 
             stats['programs_not_converging'] += 1
         else:
             stats['programs_solved'] += 1
-            for (ti, k, val, scale) in numeric_check(ts, targets, kmin=kmin):
+            for (ti, k, val, scale, note) in numeric_check(ts, targets, kmin=kmin):
                 label = targets[ti][0]
                 out.failures.append({
                     'key': '%s:%s' % (pid, label.split('|')[0]),
-                    'what': '%s: identity "%s" evaluates to %.6g at period %d on the solved series (scale %.4g)' % (
+                    'what': ('%s: identity "%s": %s' % (pid, label, note)) if note else
+                            '%s: identity "%s" evaluates to %.6g at period %d on the solved series (scale %.4g)' % (
                         pid, label, val, k, scale),
                     'replay': {'kind': 'program', 'prog': G.strip_prog(prog), 'target': label, 'period': k}})
     stats['generation_wall_s'] = round(time.time() - t_gen, 1)
@@ -169,7 +174,7 @@ def replay_program(path, make_targets, kmin=2):
         print('model does not solve: %r' % err)
         return 1
     bad = numeric_check(ts, targets, kmin=kmin)
-    for ti, k, val, scale in bad:
-        print('FAILS: %s = %.6g at period %d' % (targets[ti][0], val, k))
+    for ti, k, val, scale, note in bad:
+        print('FAILS: %s = %.6g at period %d %s' % (targets[ti][0], val, k, note or ''))
     print('replay: %s' % ('property violated' if bad else 'property holds on this input'))
     return 1 if bad else 0
